@@ -5,11 +5,14 @@ from streamlib import *
 import gen_json as G
 
 NORF = {"src": 0, "at": 0}
-MODE_ARGV = {"plain": [], "merge": ["--merge"], "sort": ["--sort-by=."], "select": ["--select=. =v"], "group": ["--group-by=(stringify .)"]}
+MODE_ARGV = {"plain": [], "merge": ["--merge"], "sort": ["--sort-by=."], "select": ["--select=. =v"], "group": ["--group-by=(stringify .)"],
+             "fidx": ["--select=&index-in-file =f", "--select=. =v"],
+             "take": ["--take=2"], "skiptake": ["--skip=1", "--take=1"], "sorttake": ["--sort-by=.", "--take=2"], "mergetake": ["--merge", "--take=3"]}
+LIMITED = ("take", "skiptake", "sorttake", "mergetake")
 
 
 def base_record(kind, policy="ignore", mode="plain", only_obj=False, files=None, stdin=b"", valid=True):
-    m = mode if mode in ("plain", "merge", "ctx") else ("merge" if mode in ("sort", "group") else "plain")
+    m = mode if mode in ("plain", "merge", "ctx") else ("merge" if mode in ("sort", "group", "sorttake", "mergetake") else "plain")
     return {"kind": kind, "valid": valid, "policy": policy, "mode": m, "onlyObj": only_obj, "files": [list(f) for f in (files or [])], "stdin": list(stdin),
             "rfault": dict(NORF), "wfault": -1, "exact": mode in ("plain", "merge") and policy != "stdout",
             "_blobs": [bytes(stdin)] + [bytes(f) for f in (files or [])]}
